@@ -159,6 +159,12 @@ def run(R, env):
             arm_ = {"calls": e["handler"], "handlers": [t_.get("rkey") for _, t_ in e["handler"]]}
             if not arm_["handlers"][0] or prog.body(arm_["handlers"][0]) is None:
                 continue
+            # the callback is always handed to its handler: no success exit of sudo bypasses it (a
+            # callback that is acknowledged without being processed is consumed by the chain and lost)
+            from engine.analysis import must_pass as _mp
+            dw = dct.assume_variant(lambda t_: t_[0] in ("param", "field", "payload", "variant") and any(s_[0] == "param" and len(s_) > 3 and "SudoMsg" in (s_[3] or "") for s_ in subterms(t_)), vname).settle()
+            cbb = e["handler"][0][0]
+            R.ob("C07.R4", ("ack" if vname == "IBCAck" else "timeout") + ":always-dispatched", cbb in dw.T.reach and _mp(dw, cbb), "sudo can answer Ok for this callback without handing it to its handler: the ack / timeout is consumed and the packet stays `Sent` (never refundable)", loc=dct.body.loc(cbb), fn=dct.body.key)
             c = handler_ctx(prog, dct, arm_)
             deep = lambda w_: [o for o in storage_ops_deep(prog, w_, env.depth) if o["kind"] == "w"]
             if not [o for o in storage_ops_deep(prog, c, env.depth) if ns_of(prog, o["args"][0]) == "inflight"]:
